@@ -49,8 +49,7 @@ def register(R):
                         "self._lower_bound[self._samples_since_reset] >= 0"),
                 ("C04", "(self.target is None) == (self.sd_hat is None)"),
                 # the statistics are known from the end of burn-in onwards
-                ("C04", "implies(self.target is None, self._samples_since_reset < self.burn_in and "
-                        "self._samples_since_reset == self._total_samples)"),
+                ("C04", "implies(self.target is None, self._samples_since_reset < self.burn_in)"),
             ])
 
     R.contract(Q + ".__init__", tags=("C01",),
